@@ -10,7 +10,7 @@ from .. import common, tlc, pool, judge, flow
 PROP = 'C05'
 TRACE = ('Trace_Units', 'Trace_Units.cfg')
 DEC = {'en-us': '.', 'es-mx': '.', 'ja-jp': '.', 'zh-cn': '.'}
-NUMERALS = [('12', ''), ('3', '5'), ('1', ''), ('250', '')]
+NUMERALS = [('12', ''), ('3', '5'), ('1', ''), ('250', ''), ('2', ''), ('3', '')]
 AMOUNTS = [(1, 1), (2, 50), (10, 5), (100, 99), (7, 3), (1, 14), (12, 59)]   # the last two are not exact in binary floating point
 CONNECT = {'en-us': 'and', 'es-es': 'y', 'es-mx': 'y', 'fr-fr': 'et', 'pt-br': 'e', 'it-it': 'e', 'de-de': 'und', 'nl-nl': 'en'}
 
@@ -42,7 +42,11 @@ def run(tier):
             for k in usable:
                 e = entries[k]
                 by_unit.setdefault((e['culture'], e['type'], e['unit'], e['side']), []).append(k)
-            pick_e = sorted(rnd.choice(v) for v in by_unit.values())
+            pick_e = {rnd.choice(v) for v in by_unit.values()}
+            # spellings with capital letters are always taken: the few that work do so because the pre-processing of the
+            # case-sensitive models protects them (GB, MB, kB ...); the others are listed findings
+            pick_e |= {k for k in usable if any(ch.isupper() for ch in entries[k]['surface']) and entries[k]['surface'].isascii()}
+            pick_e = sorted(pick_e)
             okp = [k for k, p in enumerate(pairs) if p['main_surfaces'] and p['fraction_surfaces']]
             nonstd = [k for k in okp if pairs[k]['ratio'] != 100]          # every pair with an unusual ratio (5, 10, 4, 20, 1000)
             std = [k for k in okp if pairs[k]['ratio'] == 100]
@@ -50,8 +54,12 @@ def run(tier):
         else:
             pick_e = usable
             pick_p = [k for k, p in enumerate(pairs) if p['main_surfaces'] and p['fraction_surfaces']]
+        # a spelling that contains the digit 2 or 3 is also combined with that digit as the numeral
+        digits = [[k, 5 if d == '2' else 6] for k in usable for d in ('2', '3') if d in entries[k]['surface']]
+        if tier == 'quick':
+            digits = [x for n_, x in enumerate(digits) if n_ % 3 == 0 or entries[x[0]]['culture'] == 'en-us']
         pickfile = os.path.join(work, 'pick.json')
-        json.dump({'entries': pick_e, 'pairs': pick_p}, open(pickfile, 'w'))
+        json.dump({'entries': pick_e, 'pairs': pick_p, 'digits': digits}, open(pickfile, 'w'))
         gen = tlc.run(work, 'Gen_Units', cfg='Gen_Units.cfg', dump=True, env={'VERIF_PICK': pickfile}, timeout=3000)
         tlc.require_ok(gen, 'Gen_Units')
         cases = []
